@@ -495,7 +495,7 @@ def op_lap(scn):
     out["steps"] = steps
     sc = S.script
     out["script"] = [sc[nm] for nm in c.names]
-    s_before = dict(S._script)
+    s_before = dict(S.script)
     ok, res = call(L.apply, D, S)
     if ok:
         out["apply"] = ddig(c, res)
@@ -519,7 +519,7 @@ def op_lap(scn):
     out["apply_seq"] = ddig(c, r3) if ok else "ERR"
     out["D_after"] = ddig(c, D)
     sc = S.script
-    out["s_after"] = [sc[nm] for nm in c.names] if dict(S._script) == s_before else "CHANGED"
+    out["s_after"] = [sc[nm] for nm in c.names] if dict(S.script) == s_before else "CHANGED"
     out["graph"] = c.gdigest(G)
     return out
 
